@@ -5,7 +5,8 @@
 From Coq Require Import String List NArith Bool.
 From Coq Require Import Strings.Byte.
 From GoBT Require Import lib.Bytes lib.Hex lib.Sha256 model.Tx spec.FeeSpec model.Fees model.Change
-  spec.DigestSpec model.SigHash model.SigHashWire spec.OrdSpec model.Ord model.Inscription corr.Corr.
+  spec.DigestSpec model.SigHash model.SigHashWire spec.OrdSpec model.Ord model.Inscription model.InscriptionArgs
+  corr.Corr.
 Import ListNotations.
 Local Open Scope N_scope.
 Local Open Scope bool_scope.
@@ -65,6 +66,10 @@ Inductive case :=
        (pstx final : obs) (prev_sats : list N) (fifo_dst : N)
 (** Inscribe then ParseInscription *)
 | CInscribe (prefix ct data : bytes) (enriched : option (list bytes)) (script_sha : string) (parsed : parse_obs)
+(** Inscribe then ParseInscription, the argument object as Go was given it: Data nil ([None]) or not, EnrichedArgs nil
+    ([None]), OpReturnData nil ([Some None]) or a list whose elements may be nil (model/InscriptionArgs.v) *)
+| CInscribeArgs (prefix ct : bytes) (data : option bytes) (enriched : option (option (list (option bytes))))
+                (script_sha : string) (parsed : parse_obs)
 (** ParseInscription of an arbitrary script *)
 | CParse (script : bytes) (parsed : parse_obs)
 (** InscribeSpecificOrdinal on inputs with these values: the amount of the first output, or an error *)
@@ -146,6 +151,11 @@ Definition check (c : case) : bool :=
       end
   | CInscribe prefix ct data enriched ssha parsed =>
       match inscribe_script prefix ct data enriched with
+      | Some s => sha_is s ssha && parse_matches (parse_inscription s) parsed
+      | None => String.eqb ssha ""
+      end
+  | CInscribeArgs prefix ct data enriched ssha parsed =>
+      match inscribe_args_script (mkInscArgs prefix data ct enriched) with
       | Some s => sha_is s ssha && parse_matches (parse_inscription s) parsed
       | None => String.eqb ssha ""
       end
